@@ -97,6 +97,11 @@ func init() {
 			for _, t := range validTemplates {
 				cases = append(cases, Case{ID: "parse valid " + strings.ReplaceAll(t, "\n", "\\n"), Pkg: "internal/parser", Fn: "ZZC14ParseText", Args: []string{t, "1"}, Tag: "corpus-parse (native parser, by-product)"})
 			}
+			// a backslash is an ordinary character of a string unless it is followed by a quote that is not the last one
+			for _, t := range []string{"set_tx_meta(\"k\", \"a\\\")", "set_tx_meta(\"dir\", \"C:\\dir\\\")", "set_account_meta(@b, \"sep\", \"\\\")", "set_tx_meta(\"k\", \"a\\\\\")\nset_tx_meta(\"j\", \"tab\\there\")",
+				"set_tx_meta(\"q\", \"say \\\"hi\\\"\")"} {
+				cases = append(cases, Case{ID: "parse valid " + strings.ReplaceAll(t, "\n", "\\n"), Pkg: "internal/parser", Fn: "ZZC14ParseText", Args: []string{t, "1"}, Tag: "corpus-parse (native parser, by-product)"})
+			}
 			invalid := []string{"send", "send [USD 1] (", "vars {", "send [USD 1] ( source = @a destination = )", "} } }", "send [USD 1] ( source = @a destination = @b ) )", "set_tx_meta(", "vars { number }", "@", "$", "[USD", "send [USD *] ( source = destination = @b )", "é", "send [USD 1] ( source = @a\ndestination = @b", "\"unterminated"}
 			v0 := validTemplates[0]
 			invalid = append(invalid, ")"+v0, "#"+v0, "é "+v0, "=\n", ")", "#", v0+" )", v0+"\n#", "\n)"+v0, "]"+v0, "1"+v0)
